@@ -83,7 +83,7 @@ class GetFirstRange(Contract):
 
 
 class FileIterRange(Contract):
-    props = ('C17',)
+    props = ('C17', 'C03')      # C03: static_file announces Content-Length = the slice length; this generator delivers the bytes
     file = 'ombott/static_stream.py'
     qualname = '_file_iter_range'
     ghost_const = ('stream0',)
